@@ -58,6 +58,7 @@ def gen_cases(tier, seed):
     cases += [{"id": f"c09-raw-{seed}-{i}", "seed": seed * 6151 + 5000 + i, "kind": "raw",
                "n": 12 if tier == "quick" else 40} for i in range(n)]
     cases.append({"id": "c09-seed-confirm-race", "seed": seed, "kind": "seed"})
+    cases += example_cases("c09", tier, seed)
     nchunks = 8 if tier == "quick" else 64
     for k in range(nchunks):
         cases.append({"id": f"c09-exh-{k}", "seed": seed, "kind": "exhaustive", "chunk": k,
@@ -67,6 +68,65 @@ def gen_cases(tier, seed):
 
 REQUEST_KINDS = ["static", "tree", "step_out", "step_inp", "step_vol", "amend_inp", "amend_out",
                  "amend_vol", "glob", "hold", "release", "stale", "wdcomment", "dup_step", "info"]
+
+
+def example_cases(prefix, tier, seed):
+    """The repository's own example scripts (real CLI, real step processes, watch mode) with the
+    monitors injected into the director process: a few in the quick tier, all in the thorough one."""
+    from vmon import examples
+    repo = os.environ.get("VERIF_REPO", "/repo")
+    names = examples.example_names(repo)
+    rng = random.Random(seed * 131 + 7)
+    if tier == "quick":
+        names = rng.sample(names, 12)
+        chunk = 3
+    else:
+        chunk = 6
+    return [{"id": f"{prefix}-examples-{k // chunk}", "seed": seed, "kind": "examples", "names": names[k:k + chunk]}
+            for k in range(0, len(names), chunk)]
+
+
+def run_examples(case, prefixes=None, mechs=None):
+    from vmon import examples
+    repo = os.environ.get("VERIF_REPO", "/repo")
+    counters = dict.fromkeys(["evaluations", "examples_run", "directors_monitored", "example_commits",
+                              "examples_without_director", "example_timeouts"], 0)
+    violations = []
+    classes = set()
+    for name in case["names"]:
+        wd = os.path.join(os.getcwd(), "ex-" + name)
+        os.makedirs(wd)
+        try:
+            res = examples.run_example(repo, name, wd)
+        finally:
+            shutil.rmtree(wd, ignore_errors=True)
+        counters["examples_run"] += 1
+        counters["evaluations"] += 1
+        if res["rc"] == "timeout":
+            counters["example_timeouts"] += 1
+        if not res["directors"]:
+            counters["examples_without_director"] += 1
+        for d in res["directors"]:
+            if not d.get("attached"):
+                continue
+            counters["directors_monitored"] += 1
+            counters["example_commits"] += d.get("write_commits", 0)
+            for key, val in (d.get("counters") or {}).items():
+                if key.startswith(("structure_", "transition_", "dispatch", "cached_")):
+                    counters[key] = counters.get(key, 0) + val
+                if key.startswith("step_") or key.startswith("file_"):
+                    classes.add(key)
+            for mech, msg in d.get("findings") or []:
+                ok = (prefixes is not None and mech.startswith(prefixes)) or (mechs is not None and mech in mechs)
+                if ok and sum(1 for v in violations if v["mechanism"] == mech) < 2:
+                    violations.append({"mechanism": mech, "message": f"example {name}: {msg}",
+                                       "witness": {"example": name, "case": case["id"]}})
+        for err in res["hook_errors"]:
+            violations.append({"mechanism": "harness: site hook failed", "message": f"example {name}: {err}",
+                               "witness": {"example": name}})
+    return {"status": "violation" if violations else "held", "violations": violations, "counters": counters,
+            "nontrivial": sorted(f"{case['id']}:{c}" for c in classes)[:40], "nontrivial_many": True,
+            "sample": {"case": case["id"], "examples": case["names"]}}
 
 
 def make_request(rng, kind, path=None):
@@ -133,6 +193,11 @@ def fingerprint(snap):
 
 
 def run_case(case):
+    if case.get("kind") == "examples":
+        res = run_examples(case, prefixes=tuple(p for p in STRUCT_MECHS_PREFIXES if not p.startswith("harness")))
+        for key in REQUIRED_COUNTERS:
+            res["counters"].setdefault(key, 0)
+        return res
     rng = random.Random(case["seed"])
     counters = dict.fromkeys(["evaluations", "builds", "structure_checks", "transition_checks",
                               "commits_checked", "raw_requests", "raw_rejected", "raw_internal",
